@@ -105,12 +105,38 @@ func (c *Ctx) drawIntn(info *types.Info, rel string, call *ast.CallExpr, stack [
 		unknown("result of the draw is not stored in a variable")
 		return
 	}
-	// --- reservoir: the draw sits in the else branch of `if C < N { out[C] = x }`
+	// --- reservoir: the draw sits in the else branch of `if C < N { out[C] = x }`, or follows
+	// `if C < N { out[C] = x; ...; continue }` in the same statement list
+	type resCtx struct {
+		is    *ast.IfStmt
+		scope ast.Node // where the replacement store is looked for
+	}
+	var cands []resCtx
 	for i := len(stack) - 1; i >= 1; i-- {
-		is, ok := stack[i-1].(*ast.IfStmt)
-		if !ok || is.Else == nil || stack[i] != ast.Node(is.Else) {
-			continue
+		if is, ok := stack[i-1].(*ast.IfStmt); ok && is.Else != nil && stack[i] == ast.Node(is.Else) {
+			cands = append(cands, resCtx{is, is.Else})
 		}
+		var list []ast.Stmt
+		switch b := stack[i-1].(type) {
+		case *ast.BlockStmt:
+			list = b.List
+		case *ast.CaseClause:
+			list = b.Body
+		}
+		for k, s := range list {
+			if ast.Node(s) == stack[i] {
+				for j := k - 1; j >= 0; j-- {
+					if is, ok := list[j].(*ast.IfStmt); ok && is.Else == nil && len(is.Body.List) > 0 {
+						if br, ok := is.Body.List[len(is.Body.List)-1].(*ast.BranchStmt); ok && br.Tok == token.CONTINUE {
+							cands = append(cands, resCtx{is, &ast.BlockStmt{List: list[j+1:], Lbrace: list[j+1].Pos(), Rbrace: list[len(list)-1].End()}})
+						}
+					}
+				}
+			}
+		}
+	}
+	for _, rc := range cands {
+		is := rc.is
 		be, ok := unparen(is.Cond).(*ast.BinaryExpr)
 		if !ok {
 			continue
@@ -143,7 +169,7 @@ func (c *Ctx) drawIntn(info *types.Info, rel string, call *ast.CallExpr, stack [
 		want := canonPlus1(cKey)
 		// replacement store out[v] = x guarded by v < N
 		guardOK, storeSeen := false, false
-		ast.Inspect(is.Else, func(m ast.Node) bool {
+		ast.Inspect(rc.scope, func(m ast.Node) bool {
 			as, ok := m.(*ast.AssignStmt)
 			if !ok {
 				return true
@@ -166,14 +192,39 @@ func (c *Ctx) drawIntn(info *types.Info, rel string, call *ast.CallExpr, stack [
 			}
 			return true
 		})
+		// the "items seen" counter is incremented exactly once on every path of the iteration
+		counterOK, counterWhy := true, ""
+		if cObj := identObj(info, cExpr); cObj != nil {
+			var loopBody *ast.BlockStmt
+			byLoop := false // the loop itself advances the counter (range index / post statement)
+			for i := len(stack) - 1; i >= 0 && loopBody == nil; i-- {
+				switch lp := stack[i].(type) {
+				case *ast.RangeStmt:
+					loopBody = lp.Body
+					if lp.Key != nil && identObj(info, lp.Key) == cObj {
+						byLoop = true
+					}
+				case *ast.ForStmt:
+					loopBody = lp.Body
+					if inc, ok := lp.Post.(*ast.IncDecStmt); ok && inc.Tok == token.INC && identObj(info, inc.X) == cObj {
+						byLoop = true
+					}
+				}
+			}
+			if loopBody != nil && !byLoop {
+				counterOK, counterWhy = incOncePerIteration(info, loopBody.List, cObj)
+			}
+		}
 		switch {
 		case arg != want:
 			o := c.Violation("DRAW", key, call.Pos(), fmt.Sprintf("reservoir sampling: the item at zero-based position %s (slot fill `[%s]` under `%s < %s`) must draw from Intn(%s); Intn(%s) makes item number %s+1 enter with probability %s/%s instead of %s/(%s+1) — in particular item %s+1 is always selected and the last slot is never replaced by it", cKey, cKey, cKey, nKey, want, arg, cKey, nKey, cKey, nKey, cKey, nKey))
 			o.Clause = "every tree / tip subset has the same probability; reservoir sampling"
 		case !storeSeen || !guardOK:
 			c.Violation("DRAW", key, call.Pos(), "reservoir sampling: replacement store is not guarded by `"+v.Name()+" < "+nKey+"`").Clause = "every tree / tip subset has the same probability"
+		case !counterOK:
+			c.Violation("DRAW", key, call.Pos(), "reservoir sampling: the count of items seen ("+cKey+") is not incremented exactly once on every path of an iteration ("+counterWhy+"): later items are drawn against a stale count and enter with the wrong probability").Clause = "every tree / tip subset has the same probability; reservoir sampling"
 		default:
-			c.OK("DRAW", key, call.Pos(), "reservoir: position "+cKey+", draw Intn("+arg+"), replacement iff draw < "+nKey)
+			c.OK("DRAW", key, call.Pos(), "reservoir: position "+cKey+", draw Intn("+arg+"), replacement iff draw < "+nKey+", count incremented once per item")
 		}
 		return
 	}
@@ -425,4 +476,116 @@ func (c *Ctx) sameLengthSiblings(info *types.Info, body *ast.BlockStmt, target t
 		}
 	}
 	return false
+}
+
+// incOncePerIteration: along every path through the loop body that reaches the back edge (end of
+// body or `continue`), the counter is incremented exactly once.
+func incOncePerIteration(info *types.Info, list []ast.Stmt, cnt types.Object) (bool, string) {
+	ok, why := true, ""
+	fail := func(w string) {
+		if ok {
+			ok, why = false, w
+		}
+	}
+	isInc := func(s ast.Stmt) bool {
+		switch x := s.(type) {
+		case *ast.IncDecStmt:
+			return x.Tok == token.INC && identObj(info, x.X) == cnt
+		case *ast.AssignStmt:
+			if len(x.Lhs) == 1 && identObj(info, x.Lhs[0]) == cnt {
+				return x.Tok == token.ADD_ASSIGN
+			}
+		}
+		return false
+	}
+	// walk returns the set of possible increment counts (bitmask: 1=zero, 2=one, 4=many) at fall-through
+	var walk func(list []ast.Stmt, in uint8) uint8
+	bump := func(m uint8) uint8 {
+		var o uint8
+		if m&1 != 0 {
+			o |= 2
+		}
+		if m&6 != 0 {
+			o |= 4
+		}
+		return o
+	}
+	atBackEdge := func(m uint8) {
+		if m&1 != 0 {
+			fail("a path reaches the next iteration without incrementing it")
+		}
+		if m&4 != 0 {
+			fail("a path increments it more than once")
+		}
+	}
+	walk = func(list []ast.Stmt, in uint8) uint8 {
+		cur := in
+		for _, s := range list {
+			if cur == 0 {
+				break
+			}
+			switch x := s.(type) {
+			case *ast.IfStmt:
+				a := walk(x.Body.List, cur)
+				b := cur
+				if x.Else != nil {
+					switch e := x.Else.(type) {
+					case *ast.BlockStmt:
+						b = walk(e.List, cur)
+					case *ast.IfStmt:
+						b = walk([]ast.Stmt{e}, cur)
+					}
+				}
+				cur = a | b
+			case *ast.BlockStmt:
+				cur = walk(x.List, cur)
+			case *ast.SwitchStmt:
+				var o uint8
+				hasDefault := false
+				for _, cs := range x.Body.List {
+					cc := cs.(*ast.CaseClause)
+					if cc.List == nil {
+						hasDefault = true
+					}
+					o |= walk(cc.Body, cur)
+				}
+				if !hasDefault {
+					o |= cur
+				}
+				cur = o
+			case *ast.BranchStmt:
+				switch x.Tok {
+				case token.CONTINUE:
+					atBackEdge(cur)
+					cur = 0
+				case token.BREAK, token.GOTO:
+					cur = 0
+				}
+			case *ast.ReturnStmt:
+				cur = 0
+			case *ast.ForStmt, *ast.RangeStmt:
+				// a nested loop that touches the counter is outside the idiom
+				touched := false
+				ast.Inspect(x, func(n ast.Node) bool {
+					if st, ok := n.(ast.Stmt); ok && isInc(st) {
+						touched = true
+					}
+					return true
+				})
+				if touched {
+					fail("it is changed inside a nested loop")
+				}
+			default:
+				if isInc(s) {
+					cur = bump(cur)
+				}
+			}
+		}
+		return cur
+	}
+	end := walk(list, 1)
+	if end != 0 {
+		atBackEdge(end)
+	}
+	return ok, why
 }
